@@ -16,6 +16,17 @@ def run(tier, seed):
     progs = [g.program({"kind_pool": POOL, "requests": False, "state_rates": False, "nsteps": 4,
                         "t0": g.rng.choice(["0", "0", "1", "5/2"]),   # time-dependent rates stay non-negative for t >= 0
                         "h": g.rng.choice(["1/8", "1/16"])}) for _ in range(n)]
+    # a transition whose destination alone is stratified last, with user adjustments that leave one stratum to the default
+    # (None) while the others are multiplied by factors adding up to more than one: every weight stays non-negative
+    for p in progs:
+        tr = [o for i, o in enumerate(p["ops"]) if o["op"] == "flow" and o["kind"] == "transition" and o["src"] != o["dst"]
+              and not any(x["op"] == "strat" for x in p["ops"][:i])]
+        if tr and g.rng.random() < 0.3 and not any(o["op"] == "strat" and o["name"] == "dsp" for o in p["ops"]):
+            f_ = g.rng.choice(tr)
+            if not any(o["op"] == "strat" and o["kind"] == "age" for o in p["ops"]) or True:
+                p["ops"].append({"op": "strat", "kind": "plain", "name": "dsp", "strata": ["a", "b", "c"], "comps": [f_["dst"]],
+                                 "fadj": [[f_["name"], {"a": {"mul": g.rng.choice(["3/4", "7/8", "1/2"])}, "b": {"mul": g.rng.choice(["3/4", "5/8"])}, "c": None}, {}, {}]],
+                                 "iadj": {}})
     # a differently wired twin right after a model (same compartment names, same flow names and classes, one
     # transition re-routed), executed in the same interpreter: nothing of the first may leak into the second
     twins = []
